@@ -1031,7 +1031,18 @@ func ruleBIND4(c *Ctx) {
 		return
 	}
 	paramT := info.Defs[goType.Type.Params.List[0].Names[0]]
-	c.check(usesObj(info, ts.Args[0]) == paramT, rule, "codegen.renderTemplate/go_type/type-as-given", p.Pos(ts.Pos()),
+	rewritten := false
+	ast.Inspect(goType.Body, func(n ast.Node) bool {
+		if as, ok := n.(*ast.AssignStmt); ok {
+			for _, l := range as.Lhs {
+				if usesObj(info, l) == paramT {
+					rewritten = true
+				}
+			}
+		}
+		return true
+	})
+	c.check(usesObj(info, ts.Args[0]) == paramT && !rewritten, rule, "codegen.renderTemplate/go_type/type-as-given", p.Pos(ts.Pos()),
 		"the type is spelled exactly as bound (alias names are kept, so unexported targets of exported aliases are never named)",
 		"go_type rewrites the type (`"+exprString(ts.Args[0])+"`) before spelling it: an exported alias of an unexported type would be spelled by its unnameable target")
 	okQ := false
